@@ -5,6 +5,7 @@
         route    = set (cif_container_set_value) | additem (cif_loop_add_item default value, two existing packets)
                  | addpkt (cif_loop_add_packet) | update (cif_pktitr_update_packet)
                  | parse (the value written by cif_write from a scratch CIF, then cif_parse of that document)
+                 | frameset (cif_container_set_value in a save frame nested in a save frame: block b { loop _k; save f { _k; save g { _x } } })
         mutation = 0 (release only) | 1 (reinitialise as N/A, then release) | 2 (change the content in place, then release)
      -> sv rc=<code of the storing call> o=<original> g=<cif_container_get_value> i=<packet iteration, `,`-separated>
            w=<cif_walk item handler, `,`-separated> m=<field-level dump of the value read back>
@@ -433,6 +434,7 @@ static void parse_loop(int argc, char **argv) {
 static void handle(int argc, char **argv) {
     cif_tp *cif = NULL, *scratch = NULL;
     cif_block_tp *b = NULL;
+    cif_container_tp *fr1 = NULL, *fr2 = NULL, *rd = NULL;   /* route frameset: save frames f and f/g; rd = the container read from */
     cif_loop_tp *loop = NULL;
     cif_value_tp *v = NULL, *g = NULL;
     cif_packet_tp *pkt = NULL;
@@ -499,6 +501,16 @@ static void handle(int argc, char **argv) {
                 it = NULL;
                 cif_packet_free(cur);
             }
+        } else if (strcmp(route, "frameset") == 0) {
+            /* the item lives in a save frame nested in a save frame; the block and the outer frame have content of their own */
+            static UChar CODE_F[] = { 'f', 0 }, CODE_G[] = { 'g', 0 };
+            rc = cif_container_create_loop(b, NULL, names1, &loop);
+            if (rc == CIF_OK) { pkt = key_packet(1); rc = pkt ? cif_loop_add_packet(loop, pkt) : CIF_ERROR; cif_packet_free(pkt); pkt = NULL; }
+            if (rc == CIF_OK) rc = cif_container_create_frame(b, CODE_F, &fr1);
+            if (rc == CIF_OK) { cif_value_tp *k = NULL;
+                if (cif_value_create(CIF_UNK_KIND, &k) == CIF_OK) { UChar one[2] = { '1', 0 }; (void) cif_value_copy_char(k, one); rc = cif_container_set_value(fr1, NAME_K, k); cif_value_free(k); } else rc = CIF_ERROR; }
+            if (rc == CIF_OK) rc = cif_container_create_frame(fr1, CODE_G, &fr2);
+            if (rc == CIF_OK) rc = cif_container_set_value(fr2, NAME_X, v);
         } else { OUT("bad-op"); goto done; }
         if (loop) { cif_loop_free(loop); loop = NULL; }
     }
@@ -526,14 +538,15 @@ static void handle(int argc, char **argv) {
             case 4: if (cif_value_create(CIF_UNK_KIND, &g) == CIF_OK) (void) cif_value_copy_char(g, NAME_K); break;
             default: break;   /* 0, 5: a fresh object is requested */
         }
-        r2 = cif_container_get_value(b, NAME_X, &g);
+        rd = fr2 ? fr2 : b;
+        r2 = cif_container_get_value(rd, NAME_X, &g);
         gv = r2;
         /* an item with several packets: the first value is provided together with CIF_AMBIGUOUS_ITEM (documented) */
         OUT(" g="); if (r2 == CIF_OK || (r2 == CIF_AMBIGUOUS_ITEM && g != NULL && strcmp(route, "additem") == 0)) fdump_pub(stdout, g); else OUT("!%d", r2);
         /* (b) packet iteration */
         OUT(" i=");
         mi = open_memstream(&mitext, &misz);
-        r2 = cif_container_get_item_loop(b, NAME_X, &loop);
+        r2 = cif_container_get_item_loop(rd, NAME_X, &loop);
         if (r2 == CIF_OK) r2 = cif_loop_get_packets(loop, &it);
         if (r2 == CIF_OK) {
             cif_packet_tp *cur = NULL;
@@ -576,6 +589,8 @@ static void handle(int argc, char **argv) {
 done:
     if (g) cif_value_free(g);
     if (v) cif_value_free(v);
+    if (fr2) cif_container_free(fr2);
+    if (fr1) cif_container_free(fr1);
     if (b) cif_container_free(b);
     if (cif) cif_destroy(cif);
     free(otext);
